@@ -8,11 +8,16 @@ RULE = ("cases = EncodeSymbols on arrays of 1..1e5 symbols (uniform / skewed / c
         "two-valued / zipf / bit-length ramp; values mostly below 2^20, some up to 2^32-1 (the 31/32-bit edge included); components 1..4; levels 0..10 and unset; "
         "forced tagged, forced raw, automatic), DecodeSymbols on the produced bytes + sentinel and on truncated / corrupted / "
         "re-laid-out (pre-2.0) / random bytes, RAnsSymbolEncoder<N>/RAnsSymbolDecoder<N> for N = 1..18 on histogram and "
-        "adversarial frequency tables, two-symbol dyadic tables sweeping the 1/2/3-byte tail boundaries, Create alone on frequencies up to 2^58; a case is distinct by its text; all cases run the coder, so all count as non-trivial")
+        "adversarial frequency tables, two-symbol dyadic tables sweeping the 1/2/3-byte tail boundaries, Create alone on frequencies up to 2^58; "
+        "rwa = the rANS write area: num_expected_bits_ (read from the encoder object), bytes written, bytes touched and bytes reserved by StartEncoding "
+        "against the model (which also checks num_expected_bits_ against its fixed-point enclosure of the cross entropy and against the accuracy "
+        "premise of C08_write_area_sufficient), on every direct case, on a quarter of the small arrays, on all large arrays and on the dominated "
+        "arrays (one value + singletons / bit-length tags, 1e5..2.2e5 symbols); direct oracle on EVERY encode, run on a buffer with spare capacity "
+        "before the library call: bytes touched <= bytes reserved; a case is distinct by its text; all cases run the coder, so all count as non-trivial")
 
 def corr_runs(ctx):
     return [dict(tag="h_C08", harness="C08", driver="C08", args=[ctx.tier, ctx.seed],
-                 needs_vo=["Model/RansSymbol.vo", "Model/RansFloat.vo", "Model/SymbolCoding.vo", "Base/DriverSupport.vo"])]
+                 needs_vo=["Model/RansSymbol.vo", "Model/RansFloat.vo", "Model/SymbolCoding.vo", "Model/RansBound.vo", "Base/DriverSupport.vo"])]
 
 def classify(line):
     return None
